@@ -54,6 +54,10 @@ func init() {
 					i++
 				}
 			}
+			for _, w := range []int{4, 32} {
+				bs = append(bs, core.Batch{Name: fmt.Sprintf("barrage-w%d", w), TimeoutS: 300,
+					Params: core.Params(c15Params{Kind: "barrage", Events: 2, Duration: 5, Rounds: tierPick(tier, 40, 300), Workers: w})})
+			}
 			bs = append(bs, core.Batch{Name: "failsub", TimeoutS: 120, Params: core.Params(c15Params{Kind: "failsub", Rounds: tierPick(tier, 40, 400)})})
 			for _, g := range []string{"late-request", "expiry-parked", "control"} {
 				bs = append(bs, core.Batch{Name: "directed-" + g, TimeoutS: 300, Params: core.Params(c15Params{Kind: "directed", Gate: g, Rounds: tierPick(tier, 6, 40), Duration: 15})})
@@ -296,6 +300,12 @@ func c15Run(c *core.Ctx, b core.Batch) {
 	case "nats":
 		for round := 0; round < p.Rounds; round++ {
 			if !c15Round(c, env, p, round, "") {
+				return
+			}
+		}
+	case "barrage":
+		for round := 0; round < p.Rounds; round++ {
+			if !c15Barrage(c, env, p, round) {
 				return
 			}
 		}
@@ -738,4 +748,165 @@ func c15Long(c *core.Ctx, env *c15Env, p c15Params) {
 		c.Violation("C15/subscription-leak", fmt.Sprintf("after %d expired query events: client subscriptions %d (baseline %d), server %d (baseline %d)", p.Events, now.ncSubs, base.ncSubs, now.srvSubs, base.srvSubs), nil)
 	}
 	c.Sample(map[string]interface{}{"scenario": "long history", "expired_events": p.Events, "listener_goroutines_after": now.goroutines, "client_subscriptions_after": now.ncSubs})
+}
+
+
+// c15Barrage: requesters send query requests back to back (one outstanding
+// each) from the start of a short query event until well after its expiry, so
+// that requests are in flight on the connection at the very moment the service
+// ends the subscription. Every request flushed to the server before the
+// query.expire hook fired must be answered exactly once.
+func c15Barrage(c *core.Ctx, env *c15Env, p c15Params, round int) bool {
+	wireStart := env.ne.WireLen()
+	expireBefore := sched.Count("query.nilqueued")
+	var evs []*c15Event
+	for i := 0; i < p.Events; i++ {
+		evs = append(evs, &c15Event{idx: i, rid: fmt.Sprintf("svc.qc.b%dn%d", round, i), typ: "collection", behaviour: "events"})
+	}
+	for _, ev := range evs {
+		if err := env.trigger(ev); err != nil {
+			c.Violation("C15/with-error", "With failed: "+err.Error(), nil)
+			return false
+		}
+	}
+	ok := env.ne.WaitWire(func(w []natsenv.WireMsg) bool {
+		n := 0
+		for _, m := range w[wireStart:] {
+			if strings.HasSuffix(m.Subject, ".query") && strings.HasPrefix(m.Subject, "event.svc.") {
+				n++
+			}
+		}
+		return n >= len(evs)
+	}, 10*time.Second)
+	if !ok {
+		c.Inconclusive("query events did not appear on the wire")
+		return false
+	}
+	for _, m := range env.ne.Wire()[wireStart:] {
+		if strings.HasSuffix(m.Subject, ".query") && strings.HasPrefix(m.Subject, "event.svc.") {
+			rid := strings.TrimSuffix(strings.TrimPrefix(m.Subject, "event."), ".query")
+			var qe struct {
+				Subject string `json:"subject"`
+			}
+			json.Unmarshal(m.Data, &qe)
+			if v, ok := env.events.Load(rid); ok {
+				v.(*c15Event).subject = qe.Subject
+			}
+		}
+	}
+	type sent struct {
+		ev       *c15Event
+		inbox    string
+		flushSeq int64
+		got      int
+	}
+	var mu sync.Mutex
+	var all []*sent
+	var wg sync.WaitGroup
+	stopAt := time.Now().Add(time.Duration(p.Duration)*time.Millisecond + 25*time.Millisecond)
+	for _, ev := range evs {
+		if ev.subject == "" {
+			continue
+		}
+		for q := 0; q < 3; q++ {
+			wg.Add(1)
+			go func(ev *c15Event) {
+				defer wg.Done()
+				nc, err := env.ne.Connect("requester")
+				if err != nil {
+					return
+				}
+				defer nc.Close()
+				for time.Now().Before(stopAt) {
+					inbox := nats.NewInbox()
+					sub, err := nc.SubscribeSync(inbox)
+					if err != nil {
+						return
+					}
+					nc.PublishRequest(ev.subject, inbox, []byte(`{"query":"a=1"}`))
+					nc.Flush()
+					st := &sent{ev: ev, inbox: inbox, flushSeq: mon.Seq()}
+					// one outstanding request per requester
+					if _, err := sub.NextMsg(40 * time.Millisecond); err == nil {
+						st.got++
+						if _, err := sub.NextMsg(2 * time.Millisecond); err == nil {
+							st.got++
+						}
+					}
+					sub.Unsubscribe()
+					mu.Lock()
+					all = append(all, st)
+					mu.Unlock()
+				}
+			}(ev)
+		}
+	}
+	wg.Wait()
+	deadline := time.Now().Add(10 * time.Second)
+	for sched.Count("query.nilqueued") < expireBefore+int64(len(evs)) {
+		if time.Now().After(deadline) {
+			c.Inconclusive("query events did not expire")
+			return false
+		}
+		time.Sleep(time.Millisecond)
+	}
+	// Decide on the wire log after quiescence, not on the requesters' pacing timeouts:
+	// the subscriptions are drained, a sentinel has run in every group, the gateway is flushed.
+	for _, ev := range evs {
+		if v, ok := env.subs.Load(ev.subject); ok {
+			sub := v.(*nats.Subscription)
+			for i := 0; i < 3000 && sub.IsValid(); i++ {
+				time.Sleep(time.Millisecond)
+			}
+		}
+	}
+	time.Sleep(20 * time.Millisecond)
+	var sw sync.WaitGroup
+	for _, ev := range evs {
+		sw.Add(1)
+		if err := env.svc.With(ev.rid, func(res.Resource) { sw.Done() }); err != nil {
+			sw.Done()
+		}
+	}
+	sdone := make(chan struct{})
+	go func() { sw.Wait(); close(sdone) }()
+	if !waitCh(sdone, 10*time.Second) {
+		c.Inconclusive("sentinel callbacks did not run")
+		return false
+	}
+	env.nc.Flush()
+	env.ne.GW.Flush()
+	time.Sleep(5 * time.Millisecond)
+	onWire := map[string]int{}
+	for _, m := range env.ne.Wire()[wireStart:] {
+		if strings.HasPrefix(m.Subject, "_INBOX.") && !isPreResponse(m.Data) {
+			onWire[m.Subject]++
+		}
+	}
+	for _, st := range all {
+		st.got = onWire[st.inbox]
+	}
+	for _, st := range all {
+		c.Eval(1)
+		expSeq := int64(0)
+		if v, ok := env.expire.Load(st.ev.subject); ok {
+			expSeq = v.(int64)
+		}
+		before := expSeq != 0 && st.flushSeq < expSeq
+		if before {
+			c.Obs("requests_before", 1)
+		} else {
+			c.Obs("requests_after", 1)
+		}
+		if before && st.got != 1 {
+			c.Violation(fmt.Sprintf("C15/response-count:%d:barrage", st.got), fmt.Sprintf("a query request flushed to the server before the query event on %s expired (seq %d < %d) got %d responses while requests were being sent back to back around the expiry", st.ev.rid, st.flushSeq, expSeq, st.got),
+				map[string]interface{}{"rid": st.ev.rid, "flush_seq": st.flushSeq, "expire_seq": expSeq, "duration_ms": p.Duration})
+			return true
+		}
+		if !before && st.got > 1 {
+			c.Violation("C15/response-count-after-expiry", fmt.Sprintf("query request after expiry got %d responses", st.got), nil)
+		}
+	}
+	c.Distinct(fmt.Sprintf("%s/%d", c.Batch.Name, round))
+	return true
 }
